@@ -263,8 +263,10 @@ fn value_variants(v: &Val) -> Vec<(String, Val)> {
             let p = encode(m);
             out.push(("msg=empty".into(), Val::Bytes(vec![])));
             out.push(("len+1".into(), Val::RawLen(p.len() as u64 + 1, p.clone())));
-            out.push(("len-1".into(), Val::RawLen(p.len() as u64 - 1, p.clone())));
-            out.push(("msg-last-byte".into(), Val::Bytes(p[..p.len() - 1].to_vec())));
+            if !p.is_empty() {
+                out.push(("len-1".into(), Val::RawLen(p.len() as u64 - 1, p.clone())));
+                out.push(("msg-last-byte".into(), Val::Bytes(p[..p.len() - 1].to_vec())));
+            }
         }
         Val::RawLen(..) => {}
     }
